@@ -354,7 +354,10 @@ static void check_c05(const TypeOps& t) {
   for (size_t i = 0; i < p.dom.size(); i++) {
     const std::vector<uint8_t>& bytes = p.enc[i];
     for (auto& r : t.readers) {
+      const bool file_rig = r.name.find("ifstream") != std::string::npos;
       for (size_t k = 0; k < bytes.size(); k++) {
+        // file-backed readers (thorough tier) cost a file per case: long encodings get both ends only
+        if (file_rig && bytes.size() > 64 && k >= 8 && k + 24 < bytes.size()) continue;
         auto idf = CASE_ID("C05|" + t.name + "|v" + std::to_string(i) + "|R:" + r.name + "|cut" + std::to_string(k));
         if (!selected(idf)) continue;
         if (out_of_time()) { R.add("incomplete"); return; }
